@@ -52,7 +52,7 @@ var generatedOnDisk = []string{"plain-av", "loop-whole-ms-90k", "loop-not-whole-
 // expected admission of the generated layouts (property text: not a whole number of ms, or
 // representations of the reference type disagree => left out)
 var expectLeftOut = map[string]bool{"loop-not-whole-ms-90k": true, "loop-1001-odd": true, "loop-one-tick-off": true,
-	"two-video-differ": true, "two-video-differ-1ms": true}
+	"two-video-differ": true, "two-video-differ-1ms": true, "text-shorter": true}
 
 func setupVod(vod string) error {
 	if err := copyTree(lib.TestVodRoot, vod); err != nil {
